@@ -274,6 +274,24 @@ func genC18(e *emitter, tier string) {
 	e.emit(loadCase("opset:two", mut(func(mp *onnx.ModelProto) {
 		mp.OpsetImport = []*onnx.OperatorSetIdProto{{Version: 13}, {Domain: "ai.onnx.ml", Version: 14}}
 	}), "13 and ml 14"))
+	// the same domain imported more than once (and under its alias "ai.onnx"), the unsupported version before or
+	// behind the implemented one, three entries: the HIGHEST imported version decides, whichever entry is last
+	for _, imp := range [][]struct {
+		d string
+		v int64
+	}{
+		{{"", 14}, {"", 13}}, {{"", 13}, {"", 14}}, {{"ai.onnx", 15}, {"", 13}}, {{"", 13}, {"ai.onnx", 15}}, {{"ai.onnx", 13}, {"ai.onnx", 12}},
+		{{"", 12}, {"", 13}}, {{"", 13}, {"", 12}}, {{"", 13}, {"", 13}}, {{"", 21}, {"", 13}, {"", 13}}, {{"", 13}, {"", 21}, {"", 13}},
+		{{"ai.onnx.ml", 14}, {"ai.onnx.ml", 13}, {"", 13}}, {{"", 13}, {"ai.onnx.ml", 13}, {"ai.onnx.ml", 14}}, {{"x", 99}, {"x", 1}, {"", 13}},
+	} {
+		imp := imp
+		e.emit(loadCase("opset:repeated-domain", mut(func(mp *onnx.ModelProto) {
+			mp.OpsetImport = nil
+			for _, i := range imp {
+				mp.OpsetImport = append(mp.OpsetImport, &onnx.OperatorSetIdProto{Domain: i.d, Version: i.v})
+			}
+		}), fmt.Sprint(imp)))
+	}
 	// (5) unknown operator types: the model loads, Run must fail with the unsupported-operator error
 	x := NamedT{"x", smallT("f32", []int{2, 2}, 1)}
 	vin := []VInfoJ{{Name: "x", Dt: "f32", Dims: []any{2, 2}}}
